@@ -6,6 +6,7 @@ import (
 	"encoding/binary"
 	"fmt"
 	"io"
+	"sync/atomic"
 	"time"
 
 	"github.com/miekg/dns"
@@ -566,15 +567,15 @@ func c15Paced(w *core.W, g *model.Gen, zone model.Name, j int, ixfr bool) {
 			w.Inconclusive("c15-paced-start:" + err.Error())
 			return
 		}
-		var maxGap time.Duration
+		var maxGapNs atomic.Int64
 		go func() {
 			last := time.Now()
 			for _, r := range recs {
 				m := &model.Msg{ID: q.Id, Bits: 0x8400, Q: []model.Question{{Name: zone, Type: q.Question[0].Qtype, Class: 1}}, An: []*model.Rec{r}}
 				time.Sleep(gap)
 				sv.Write(frame(m.Wire()))
-				if d := time.Since(last); d > maxGap {
-					maxGap = d
+				if d := time.Since(last); int64(d) > maxGapNs.Load() {
+					maxGapNs.Store(int64(d))
 				}
 				last = time.Now()
 			}
@@ -593,6 +594,7 @@ func c15Paced(w *core.W, g *model.Gen, zone model.Name, j int, ixfr bool) {
 		if terr == nil && n == len(recs) {
 			return
 		}
+		maxGap := time.Duration(maxGapNs.Load())
 		if maxGap > timeout/3 {
 			w.Inconclusive("c15-paced-sender-was-slow")
 			return
